@@ -123,8 +123,20 @@ func init() {
 	}
 	execs["vrf.setbytes"] = func(a []string) string {
 		pr, err := new(vrf.Proof).SetBytes(unhx(a[0]))
+		// one long-lived Proof value is decoded into again and again (seeded change C18-h: a hash memoised in the Proof and not
+		// cleared by SetBytes): it must behave like the fresh one on every op
+		sp, serr := sharedProof.SetBytes(unhx(a[0]))
+		if (err == nil) != (serr == nil) {
+			return "reused-proof-differs: error"
+		}
 		if err != nil {
 			return "err"
+		}
+		if !bytes.Equal(sp.Bytes(), pr.Bytes()) || !bytes.Equal(sp.Hash(), pr.Hash()) {
+			return "reused-proof-differs: bytes=" + hx(sp.Bytes()) + " hash=" + hx(sp.Hash())
+		}
+		if h, herr := vrf.ProofToHash(unhx(a[0])); herr != nil || !bytes.Equal(h, sp.Hash()) {
+			return "reused-proof-differs: ProofToHash"
 		}
 		return "ok " + hx(pr.Bytes()) + " hash=" + hx(pr.Hash())
 	}
@@ -132,6 +144,8 @@ func init() {
 	gens["C07"] = genC07
 	gens["C18"] = genC18
 }
+
+var sharedProof = new(vrf.Proof)
 
 // customOpts is a crypto.SignerOpts that is not a crypto.Hash
 type customOpts struct{ h crypto.Hash }
